@@ -601,4 +601,22 @@ theorem pushMsg_ids (live ids : List Nat) (route : String) (data : List Nat) :
     (pushMsg live ids route data).map (·.id) = ids.filter (fun i => decide (i ∈ live)) := by
   simp [pushMsg, List.map_map, Function.comp_def]
 
+theorem filter_front_of_filter (ps : List Push) (f : String) (g : String → Bool) :
+    (ps.filter (fun p => g p.front)).filter (fun p => decide (p.front = f))
+      = if g f then ps.filter (fun p => decide (p.front = f)) else [] := by
+  induction ps with
+  | nil => simp
+  | cons p ps ih =>
+    by_cases hp : p.front = f
+    · subst hp
+      cases hg : g p.front <;> simp_all
+    · cases hg : g p.front <;> cases hgf : g f <;> simp_all
+
+theorem flatMap_front (ps : List Push) (b : String) (k : Push → List Delivery) :
+    (ps.flatMap fun p => if p.front = b then k p else [])
+      = (ps.filter (fun p => decide (p.front = b))).flatMap k := by
+  induction ps with
+  | nil => rfl
+  | cons p ps ih => by_cases hp : p.front = b <;> simp [List.flatMap_cons, hp, ih]
+
 end Cell2v.Channel
